@@ -6,7 +6,6 @@ import (
 	"encoding/xml"
 	"fmt"
 	"math/rand"
-	"reflect"
 	"strings"
 	"sync"
 
@@ -143,13 +142,51 @@ func c06Attrs(typ, id, from, to string) Sx {
 	return L(SBytes(typ), SBytes(id), SBytes(from), SBytes(to))
 }
 
-func c06IQSx(iq *stanza.IQ) Sx {
-	f := c06FactsOf(iq)
-	e := L()
-	if iq.Error != nil {
-		e = L(L(Zi(iq.Error.Code), SBytes(string(iq.Error.Type)), SBytes(iq.Error.Reason), SBytes(iq.Error.Text)))
+const c06NsStanzas = "urn:ietf:params:xml:ns:xmpp-stanzas"
+
+// c06SentSx projects a packet handed to Sender.Send onto what C06 fixes about the automatic
+// reply and nothing more: that it is an IQ, its type / id / from / to, and the name of its error
+// condition ("" when there is none).  Legacy code, error type, <text/>, echoed payload, attribute
+// order, and whether the reply is the received object or a copy are deliberately not observed.
+// The packet is read as the element it serialises to (neutral parse, canon.go); if it cannot be
+// serialised the fields of the Go value are read instead.
+func c06SentSx(p stanza.Packet) Sx {
+	if data, err := xml.Marshal(p); err == nil {
+		if ns, perr := parseCanon(data); perr == nil && len(ns) == 1 {
+			root := ns[0]
+			if root.Name.Local != "iq" {
+				return L(Z(99), SBytes(root.Name.Local))
+			}
+			attr := func(name string) string {
+				for _, a := range root.Attrs {
+					if a.Name.Space == "" && a.Name.Local == name {
+						return a.Value
+					}
+				}
+				return ""
+			}
+			cond := ""
+			for _, k := range root.Kids {
+				if k.Name.Local != "error" {
+					continue
+				}
+				for _, c := range k.Kids {
+					if c.Name.Local != "" && c.Name.Local != "text" && c.Name.Space == c06NsStanzas && cond == "" {
+						cond = c.Name.Local
+					}
+				}
+			}
+			return L(Z(2), c06Attrs(attr("type"), attr("id"), attr("from"), attr("to")), SBytes(cond))
+		}
 	}
-	return L(Z(2), c06Attrs(f.typ, f.id, f.fr, f.to), Opt(f.hasPayload, SBytes(f.ns)), B(f.any), e)
+	if iq, ok := p.(*stanza.IQ); ok {
+		cond := ""
+		if iq.Error != nil {
+			cond = iq.Error.Reason
+		}
+		return L(Z(2), c06Attrs(string(iq.Type), iq.Id, iq.From, iq.To), SBytes(cond))
+	}
+	return L(Z(99), SBytes(p.Name()))
 }
 
 // ---- the recording Sender ------------------------------------------------------------
@@ -164,11 +201,7 @@ type c06Sender struct {
 func (s *c06Sender) Send(p stanza.Packet) error {
 	s.mu.Lock()
 	defer s.mu.Unlock()
-	if iq, ok := p.(*stanza.IQ); ok {
-		s.sent = append(s.sent, c06IQSx(iq)) // as sent: MakeError mutates the received IQ in place
-	} else {
-		s.sent = append(s.sent, L(Z(99), SBytes(p.Name())))
-	}
+	s.sent = append(s.sent, c06SentSx(p)) // projected at the moment it is sent
 	return nil
 }
 func (s *c06Sender) SendIQ(ctx context.Context, iq *stanza.IQ) (chan stanza.IQ, error) {
@@ -195,6 +228,7 @@ func (c06) Decode(raw json.RawMessage) (interface{}, error) {
 func (c06) Run(inp interface{}) Sx {
 	in := inp.(c06In)
 	pkt := c06Build(in.Pkt)
+	want := c06FactsOf(pkt) // read before routing: the router may or may not rewrite the packet
 	sender := &c06Sender{}
 	router := xmpp.NewRouter()
 	var mu sync.Mutex
@@ -216,13 +250,9 @@ func (c06) Run(inp interface{}) Sx {
 		}
 		idx := i
 		rt.HandlerFunc(func(s xmpp.Sender, p stanza.Packet) {
-			same := s == xmpp.Sender(sender)
-			if a, ok := p.(*stanza.IQ); ok {
-				b, ok2 := pkt.(*stanza.IQ)
-				same = same && ok2 && a == b
-			} else {
-				same = same && reflect.DeepEqual(p, pkt)
-			}
+			// the handler must be given the routed packet: same kind, type, id and addressing
+			// (not pointer identity, and the Sender may legitimately be wrapped)
+			same := s != nil && c06FactsOf(p) == want
 			mu.Lock()
 			log = append(log, L(Zi(idx), B(same)))
 			mu.Unlock()
@@ -422,7 +452,7 @@ func (c06) Oracle(inp interface{}, obs Sx) (string, string) {
 			return fmt.Sprintf("handler of route %d ran, first acceptable route is %d (verdicts %s)", got, w.first, w.verdicts), "wrong-route"
 		}
 		if log[0].L[1].Z != 1 {
-			return "handler was not given the routed packet and sender", "handler-args"
+			return "handler was not given the routed packet", "handler-args"
 		}
 		if len(sent) != 0 {
 			return "router sent a reply for a packet a route handled", "reply-on-match"
@@ -456,12 +486,8 @@ func (c06) Oracle(inp interface{}, obs Sx) (string, string) {
 	if str(a[2]) != f.to || str(a[3]) != f.fr {
 		return fmt.Sprintf("reply from/to %q/%q, request from/to %q/%q", str(a[2]), str(a[3]), f.fr, f.to), "reply-addressing"
 	}
-	if len(r.L[4].L) != 1 {
-		return "reply carries no error element", "reply-no-error"
-	}
-	e := r.L[4].L[0].L
-	if e[0].Z != 501 || str(e[1]) != "cancel" || str(e[2]) != "feature-not-implemented" {
-		return fmt.Sprintf("reply error is %d/%s/%s", e[0].Z, str(e[1]), str(e[2])), "reply-condition"
+	if cond := str(r.L[2]); cond != "feature-not-implemented" {
+		return fmt.Sprintf("reply error condition is %q, expected feature-not-implemented", cond), "reply-condition"
 	}
 	return "", ""
 }
